@@ -41,9 +41,9 @@ def conform7(x, y, z, trans, vcv=None):
                            [z]])
     # Convert Units for Transformation Parameters
     scale = 1 + trans.sc / 1000000
-    rx = radians(hp2dec(trans.rx / 10000))
-    ry = radians(hp2dec(trans.ry / 10000))
-    rz = radians(hp2dec(trans.rz / 10000))
+    rx = radians(trans.rx / 3600)
+    ry = radians(trans.ry / 3600)
+    rz = radians(trans.rz / 3600)
     # Create Translation Vector
     translation = np.array([[trans.tx],
                             [trans.ty],
